@@ -20,7 +20,7 @@ import vlib
 
 PROP = "C19"
 
-READS = ("read", "readline", "readall", "readnum", "lines", "calliter")
+READS = ("read", "readline", "readall", "readnum", "readm", "lines", "calliter")
 SEEKS = ("seek", "seek0", "seek1")
 
 # ---------------------------------------------------------------------------
@@ -42,7 +42,7 @@ def case_key(h, bad):
     ek, gk = bad["exp"]["k"], bad["got"]["k"]
     rel = (bad.get("rel") or {}).get("rel", "")
     if step is not None and step["pre"]["closed"] and step["op"] not in ("open", "peek"):
-        op = "read" if step["op"] in ("read", "readline", "readall", "readnum") else step["op"]
+        op = "read" if step["op"] in ("read", "readline", "readall", "readnum", "readm") else step["op"]
         dc = _dirclass(step["pre"]["mode"])
         if gk == "fail" and ((op == "read" and dc == "write-only") or (op in ("write", "flush") and dc == "read-only")):
             return "C19:closed:mode-guard-before-closed-guard"
@@ -65,6 +65,8 @@ def case_key(h, bad):
                 return "C19:lines:line>=4096-split"
         if step["op"] in ("readline", "lines", "calliter") and rel == "trailing-CR-dropped":
             return "C19:line-read:CR-before-LF-stripped"
+        if step["op"] == "readm" and ek == "multi" and gk == "multi" and bad["got"]["n"] > bad["exp"]["n"]:
+            return "C19:read-multi:continues-after-the-first-failing-format"
         if step["op"] == "readnum" and gk == "fail" and "unexpected newline" in bad["got"].get("msg", "") \
                 and not _triggers(steps[:at]):
             return "C19:read-number:newline-not-skipped"
@@ -88,7 +90,7 @@ def _triggers(steps):
             continue
         if pre["closed"] or op in ("open", "peek", "getiter") or (op == "calliter" and s["exp"][0] == "error"):
             continue
-        if op in READS and s["exp"][0] in ("data", "lines", "eof", "num"):
+        if op in READS and s["exp"][0] in ("data", "lines", "eof", "num", "multi"):
             ra = True
             if op == "lines" and any(e[0] == "data" and sum(d[3] for d in e[1]) >= 4096 for e in s["exp"][1]):
                 return "C19:lines:line>=4096-split"     # even when the pieces happen to compare equal
@@ -162,7 +164,9 @@ def render_lua(h, upto):
     steps = h["steps"][:upto] if upto else h["steps"]
     for s in steps:
         op, a, n = s["op"], s["a"], s["n"]
-        c = {"open": "f = io.tmpfile()" if a == "tmp" else ("io.output(path) f = io.output()" if a == "out" else ("io.input(path) f = io.input()" if a == "in" else 'f = io.open(path, "%s")' % a)), "peek": 'io.open(path, "r"):read("*a")',
+        fmts = ", ".join(str(f[1]) if f[0] == "c" else '"*%s"' % f[0] for f in s.get("fs", []))
+        c = {"readm": "f:read(%s)  -- io.read(..) when f is the default input" % fmts,
+             "open": "f = io.tmpfile()" if a == "tmp" else ("io.output(path) f = io.output()" if a == "out" else ("io.input(path) f = io.input()" if a == "in" else 'f = io.open(path, "%s")' % a)), "peek": 'io.open(path, "r"):read("*a")',
              "read": "f:read(%d)" % n, "readline": 'f:read("*l")', "readall": 'f:read("*a")', "readnum": 'f:read("*n")',
              "lines": "it = f:lines() -- called %d times" % n, "write": "f:write(payload(%d, %d))" % (s["tag"], n),
              "seek": 'f:seek("%s", %d)' % (a, n), "seek0": "f:seek()", "seek1": 'f:seek("%s")' % a,
@@ -205,8 +209,13 @@ def rand_ops(rng, n):
         cnt = rng.choice(COUNTS) if rng.random() < 0.8 else rng.randint(1, 9000)
         if r < 0.16:
             ops.append(op("read", "", cnt))
-        elif r < 0.20:
+        elif r < 0.18:
             ops.append(op("readnum"))
+        elif r < 0.20:
+            k = rng.choice([2, 2, 3])      # f:read(fmt1, fmt2[, fmt3])
+            o = op("readm")
+            o["fs"] = [rng.choice([["c", rng.choice([0, 1, 2, 37, 4096, cnt])], ["l", 0], ["n", 0], ["a", 0]]) for _ in range(k)]
+            ops.append(o)
         elif r < 0.24:
             ops.append(op("readline"))
         elif r < 0.28:
@@ -281,16 +290,18 @@ def run(tier):
     thorough = tier == "thorough"
     slices = [("IoFileGen_modes", 4, "modes"), ("IoFileGen_rw", 4 if thorough else 3, "rw"), ("IoFileGen_lines", 4, "lines"),
               ("IoFileGen_num", 4, "num"), ("IoFileGen_iter", 6, "iter"), ("IoFileGen_buf", 5, "buf"),
-              ("IoFileGen_wbuf", 5, "wbuf"), ("IoFileGen_wbuft", 7, "wbuft")]
+              ("IoFileGen_wbuf", 5, "wbuf"), ("IoFileGen_wbuft", 7, "wbuft"),
+              ("IoFileGen_multi", 3, "multi")]
     if thorough:
         slices.append(("IoFileGen_all", 3, "all"))
         slices.append(("IoFileGen_wbufa", 6, "wbufa"))
     from concurrent.futures import ThreadPoolExecutor
     vlib.specdir()                      # create the scratch copy before threads use it
-    pool = ThreadPoolExecutor(max_workers=len(slices) + 2)
+    pool = ThreadPoolExecutor(max_workers=len(slices) + 3)
     # 1. MC: the oracle against the reference model, and its invariants at real sizes
     mcjobs = [(cfg, d, pool.submit(vlib.run_tlc, "IoFileMC", cfg, consts={"MaxHist": d}, timeout=1500, workers=w))
-              for cfg, d, w in (("IoFileMC_small", 6 if thorough else 4, 8), ("IoFileMC_big", 4 if thorough else 3, 4))]
+              for cfg, d, w in ((("IoFileMC_small", 5, 8), ("IoFileMC_smallq", 6, 8), ("IoFileMC_big", 4, 4)) if thorough else
+                                (("IoFileMC_smallq", 4, 8), ("IoFileMC_big", 3, 4)))]
     futs = [(tag, cfg, d, pool.submit(gen_bfs, cfg, d)) for cfg, d, tag in slices]   # single-worker TLC runs
     mc = []
     for cfg, d, fut in mcjobs:
@@ -310,7 +321,7 @@ def run(tier):
         replay_histories(hs, tag, verd, stats)
         for h in hs:
             if len(h["steps"]) >= 3:
-                distinct.add(vlib.canon_hash([h["init"], [(s["op"], s["a"], s["n"]) for s in h["steps"]]]))
+                distinct.add(vlib.canon_hash([h["init"], [(s["op"], s["a"], s["n"], s.get("fs", [])) for s in h["steps"]]]))
         if hs:
             samples.append({"source": tag, "lua": render_lua(hs[len(hs) // 2], 0)})
     pool.shutdown()
@@ -324,10 +335,10 @@ def run(tier):
     replay_histories(hs, "rnd", verd, stats)
     for h in hs:
         if len(h["steps"]) >= 3:
-            distinct.add(vlib.canon_hash([h["init"], [(s["op"], s["a"], s["n"]) for s in h["steps"]]]))
+            distinct.add(vlib.canon_hash([h["init"], [(s["op"], s["a"], s["n"], s.get("fs", [])) for s in h["steps"]]]))
     samples.append({"source": "rnd", "lua": render_lua(hs[0], 0)})
     # vacuity: every kind of operation, on open and on closed handles, was replayed
-    need = ["open", "peek", "read", "readline", "readall", "readnum", "lines", "write", "seek", "flush", "setvbuf", "close",
+    need = ["open", "peek", "read", "readline", "readall", "readnum", "readm", "lines", "write", "seek", "flush", "setvbuf", "close",
             "seek0", "seek1", "getiter", "calliter"]
     need += [k + "@closed" for k in need[2:]]
     missing = [k for k in need if not stats["byop"].get(k)]
@@ -335,7 +346,8 @@ def run(tier):
     for tag, ks in (("buf", ["setvbuf", "write", "seek0", "seek1", "peek"]),
                     ("iter", ["getiter", "calliter", "calliter@closed", "readline", "seek0"]),
                     ("wbuf", ["setvbuf", "read", "flush", "write", "peek"]),
-                    ("wbuft", ["setvbuf", "read", "flush", "write", "seek"])):
+                    ("wbuft", ["setvbuf", "read", "flush", "write", "seek"]),
+                    ("multi", ["readm", "readm@closed", "readall"])):
         missing += ["%s:%s" % (tag, k) for k in ks if k not in stats["bytag"].get(tag, ())]
     if missing:
         raise vlib.Infra("generated histories never exercised: %s" % missing)
@@ -350,7 +362,7 @@ def run(tier):
         "random_proposed_ops": stats["proposed_ops"], "random_legal_ops": stats["legal_ops"],
         "distinct_nontrivial": len(distinct),
         "rule": "histories = one per transition of IoFileMC's state graph (BFS, one per (state, depth), single worker) for the constant slices "
-                "modes/rw/lines/num/iter/buf/wbuf/wbuft%s, plus seeded random proposals filtered by Legal; distinct by canonical hash of "
+                "modes/rw/lines/num/iter/buf/wbuf/wbuft/multi%s, plus seeded random proposals filtered by Legal; distinct by canonical hash of "
                 "(initial size, layout, operation list); non-trivial = at least 3 operations" % ("/all/wbufa" if thorough else ""),
         "samples": samples, "mc_runs": mc, "exhaustive": False,
         "rejected_case_keys": dict(sorted(verd.nviol.items())),
@@ -373,7 +385,8 @@ def replay(path):
     # recompute the expectations with TLC from the bare operations
     stats = new_stats()
     recs = [{"id": 1, "size": h["init"]["size"], "lay": h["init"]["lay"],
-             "ops": [{"op": s["op"], "a": s["a"], "n": s["n"]} for s in h["steps"]]}]
+             "ops": [dict({"op": s["op"], "a": s["a"], "n": s["n"]}, **({"fs": s["fs"]} if s["op"] == "readm" else {}))
+                     for s in h["steps"]]}]
     hs = []
     for r in vlib.validate_batches("IoFileEval", "IoFileEval", recs, "c19_replay", batch=10, parallel=1):
         hs.extend(r.tag("GEN"))
